@@ -81,6 +81,50 @@ def ibound(name, l, n):
     return n - 1, "n nodes interpolate polynomials up to degree n-1"
 
 
+def params_rule(chk, db, rule_id):
+    """every rebuild of the one dimensional cache inside GridGlobal uses the grid's own rule, alpha, beta (shared by C02 and C03)"""
+    chk.rule(rule_id, "every construction of the one dimensional node/weight cache inside a grid class that stores rule parameters passes that grid's own rule, alpha and beta "
+                              "(the members, or the values assigned to them in the same function): a rebuild with other parameters changes nodes and weights of a parametrised Gauss rule")
+    npar = 0
+    for cls in ("TasGrid::GridGlobal",):
+        for f in db.all_functions(["SparseGrids/tsgGridGlobal.cpp", "SparseGrids/tsgGridGlobal.hpp"]):
+            if f.cls != cls:
+                continue
+            # values assigned to the members in this function: member <- variable
+            src = {}
+            for q in f.walk():
+                if q.get("k") == "BinaryOperator" and q.get("op") == "=":
+                    l, r_ = strip(q["c"][0]), strip(q["c"][1])
+                    if l is not None and l.get("k") == "MemberExpr" and short(l.get("field") or "") in ("rule", "alpha", "beta") and r_ is not None and r_.get("k") == "DeclRefExpr":
+                        src.setdefault(short(l["field"]), set()).add(r_.get("did"))
+            for ini in f.d.get("inits", []) or []:
+                if short(ini.get("field") or "") in ("rule", "alpha", "beta") and ini.get("init") is not None:
+                    i0 = strip(ini["init"])
+                    # copy constructors take the parameters from the source grid
+                    src.setdefault(short(ini["field"]), set()).add(txt(i0))
+            for c in f.walk():
+                if c.get("k") not in ("CXXTemporaryObjectExpr", "CXXConstructExpr") or not (c.get("ctor") or "").endswith("OneDimensionalWrapper"):
+                    continue
+                args = [x for x in c.get("c", []) if isinstance(x, dict)]
+                if len(args) < 4:
+                    continue        # copy / move / default construction
+                npar += 1
+                chk.saw(f)
+                bad = []
+                for role, a in zip(("rule", "alpha", "beta"), args[-3:]):
+                    a0 = strip(a)
+                    ok = (a0.get("k") == "MemberExpr" and short(a0.get("field") or "") == role) or \
+                         (a0.get("k") == "DeclRefExpr" and a0.get("did") in src.get(role, set())) or txt(a0) in src.get(role, set()) or \
+                         (a0.get("k") == "MemberExpr" and txt(a0).endswith("->" + role)) or \
+                         (role == "rule" and txt(a0) == "wrapper.getRule()")       # the cache being extended was built with the grid's rule
+                    if not ok:
+                        bad.append("%s is `%s`" % (role, txt(a0)))
+                chk.ob(rule_id, f.key + f.sig, "OneDimensionalWrapper(%s)" % ", ".join(txt(strip(a))[:14] for a in args[-3:]), not bad, f.loc(c), "; ".join(bad), "the grid's rule, alpha, beta")
+    chk.floor(rule_id, npar, 4, "constructions of the one dimensional cache in GridGlobal")
+
+    return npar
+
+
 def run(chk, prop="C02"):
     db = DB("serial")
     db.load_all()
@@ -209,44 +253,7 @@ def run(chk, prop="C02"):
                 chk.ob("C02-D4.area", o["function"], o["construct"], o["ok"], o["where"], o["detail"], o["expected"])
         chk.floor("C02-D4.area", na, 4, "basis-integral obligations shared with C04")
         # ---- the parameters of the rule reach every rebuild of the one dimensional cache
-        chk.rule("C02-D5.params", "every construction of the one dimensional node/weight cache inside a grid class that stores rule parameters passes that grid's own rule, alpha and beta "
-                                  "(the members, or the values assigned to them in the same function): a rebuild with other parameters changes nodes and weights of a parametrised Gauss rule")
-        npar = 0
-        for cls in ("TasGrid::GridGlobal",):
-            for f in db.all_functions(["SparseGrids/tsgGridGlobal.cpp", "SparseGrids/tsgGridGlobal.hpp"]):
-                if f.cls != cls:
-                    continue
-                # values assigned to the members in this function: member <- variable
-                src = {}
-                for q in f.walk():
-                    if q.get("k") == "BinaryOperator" and q.get("op") == "=":
-                        l, r_ = strip(q["c"][0]), strip(q["c"][1])
-                        if l is not None and l.get("k") == "MemberExpr" and short(l.get("field") or "") in ("rule", "alpha", "beta") and r_ is not None and r_.get("k") == "DeclRefExpr":
-                            src.setdefault(short(l["field"]), set()).add(r_.get("did"))
-                for ini in f.d.get("inits", []) or []:
-                    if short(ini.get("field") or "") in ("rule", "alpha", "beta") and ini.get("init") is not None:
-                        i0 = strip(ini["init"])
-                        # copy constructors take the parameters from the source grid
-                        src.setdefault(short(ini["field"]), set()).add(txt(i0))
-                for c in f.walk():
-                    if c.get("k") not in ("CXXTemporaryObjectExpr", "CXXConstructExpr") or not (c.get("ctor") or "").endswith("OneDimensionalWrapper"):
-                        continue
-                    args = [x for x in c.get("c", []) if isinstance(x, dict)]
-                    if len(args) < 4:
-                        continue        # copy / move / default construction
-                    npar += 1
-                    chk.saw(f)
-                    bad = []
-                    for role, a in zip(("rule", "alpha", "beta"), args[-3:]):
-                        a0 = strip(a)
-                        ok = (a0.get("k") == "MemberExpr" and short(a0.get("field") or "") == role) or \
-                             (a0.get("k") == "DeclRefExpr" and a0.get("did") in src.get(role, set())) or txt(a0) in src.get(role, set()) or \
-                             (a0.get("k") == "MemberExpr" and txt(a0).endswith("->" + role)) or \
-                             (role == "rule" and txt(a0) == "wrapper.getRule()")       # the cache being extended was built with the grid's rule
-                        if not ok:
-                            bad.append("%s is `%s`" % (role, txt(a0)))
-                    chk.ob("C02-D5.params", f.key + f.sig, "OneDimensionalWrapper(%s)" % ", ".join(txt(strip(a))[:14] for a in args[-3:]), not bad, f.loc(c), "; ".join(bad), "the grid's rule, alpha, beta")
-        chk.floor("C02-D5.params", npar, 4, "constructions of the one dimensional cache in GridGlobal")
+        params_rule(chk, db, "C02-D5.params")
         chk.note("C02", "SparseGrids/tsgCoreOneDimensional.cpp", "exactness of the computed nodes/weights themselves (eigen-solves, closed forms, tensor weights) is numerical and not decided")
         return ("Static rule discharge: the three exactness tables are partially evaluated (no loops) for every global rule and levels 0..%d and the declared quadrature exactness is compared with "
                 "theorems that bound the degree of exactness by the number of nodes (Gauss 2n-1, Gauss-Patterson (3n+1)/2, interpolatory n-1 plus one by symmetry for odd n); "
